@@ -19,14 +19,18 @@ class StoreModel:
         self.lookup_sites = [x for m in ("get", "get_mut", "contains_key") for x in self.ops.get(m, [])]
         # presence predicates: return bool, one lookup keyed by a parameter, result = "entry exists" (no liveness)
         self.presence_fns = {}
+        self.filtered_presence_fns = {}
         for f, bb, t in self.lookup_sites:
             if f.rec.get("ret") != "bool":
                 continue
             k = f.op_origin(t["args"][1])
             r = f.origin_local(0)
             lookup = f.origin_call(bb, t)
-            if k[0] == "param" and mentions(r, lambda s: strip_site(s) == strip_site(lookup)):
+            unfiltered = strip_site(r) == strip_site(lookup) or (r[0] == "call" and r[1].endswith("Option::<T>::is_some") and strip_site(r[2][0]) == strip_site(lookup))
+            if k[0] == "param" and unfiltered:
                 self.presence_fns[f.name] = k[1]
+            elif k[0] == "param" and mentions(r, lambda s: strip_site(s) == strip_site(lookup)):
+                self.filtered_presence_fns[f.name] = k[1]      # some filter sits between the lookup and the answer
 
         # readable predicates: bool functions that are `is_some()` of a liveness-filtered lookup function of the store
         self.readable_fns = {}
@@ -56,6 +60,7 @@ class StoreModel:
         preds = dict(self.presence_fns)
         if readable_too:
             preds.update(self.readable_fns)
+            preds.update(self.filtered_presence_fns)
         for b, expr, tt, ft in bool_branches(fn):
             neg = False
             e = expr
